@@ -1,6 +1,7 @@
 """C13 - packets are independent and pack/unpack are observationally pure (DESIGN.md 5.13).
 Session.tla / MC_Session.tla: up to MaxLive live packets of related classes (shared sub-packet class, list defaults,
-a prototype with its own defaults; a regex-delimited body; a selector expression), histories of New / Unpack / SetAttr
+a prototype with its own defaults; a regex-delimited body; a selector expression; described fields that are computed
+unless the user assigned them), histories of New / Unpack / SetAttr
 / append-in-place / assign-into-nested / Pack; the state that outlives an operation is the live packets and the
 field-object registers.  TLC checks Prop_C13_Bystander and Prop_C13_PackPure.  Every maximal history is executed on real
 objects; after EVERY operation the values and the pack() output of ALL live packets and the sharing of mutable
@@ -31,7 +32,9 @@ def snapshot(live):
     out = []
     for p in live:
         po = rp.run_pack(None, p, with_events=False)
-        out.append({"cls": type(p).__name__, "vals": observe.abs_packet(p)["vals"],
+        vals = [{"n": e["n"], "v": {"t": "other"} if e["v"].get("t") == "other" else e["v"]}
+                for e in observe.abs_packet(p, visible=True)["vals"]]      # what the attributes read as
+        out.append({"cls": type(p).__name__, "vals": vals,
                     "pack": {"ok": po["st"] == "done", "out": po.get("out", [])}})
     return out
 
@@ -253,7 +256,7 @@ def run(tier, seed):
     common.bind_repo()
     quick = tier == "quick"
     cases = []
-    for prog, ops, live in (("plain", 4, 2), ("regex", 4, 2), ("selector", 3, 2)):
+    for prog, ops, live in (("plain", 4, 2), ("regex", 4, 2), ("selector", 3, 2), ("desc", 4, 2)):
         cfg = ("SPECIFICATION Spec\nCONSTANTS MaxOps = %d MaxLive = %d KeepHist = %s Prog = \"%s\"\nPROPERTY Prop_C13_Bystander\n"
                "PROPERTY Prop_C13_PackPure\n%s")
         res = run_tlc("MC_Session", cfg_text=cfg % (ops - 1 if quick else ops + 1, live if quick else 3, "FALSE", prog, ""), workers=8, timeout=3000)
